@@ -26,7 +26,8 @@ ASSUMPTIONS = ["cluster association of per-point values comes from reference den
 
 
 def _strategy():
-    return gen.e2e_config(front=("single", "joint"), betas=(0.0, 0.5, 2.0, 10.0, 50.0, 400.0))
+    return gen.e2e_config(front=("single", "joint"), betas=(0.0, 0.5, 2.0, 10.0, 50.0, 400.0), offsets=(0.0, 0.0, 0.0, 1e5, -1e7, 1e8),
+                          scales=True, scale_prob=0.15)
 
 
 def _pair_betas(tr, total):
